@@ -56,9 +56,38 @@ def spec_is_neutral_only(spec) -> bool:
     return spec["state"] == N
 
 
+def disk_cached(model: SrcModel, name: str, compute):
+    """Memoise a JSON-able result under the digest of all analysed sources (+ the checker's own sources)."""
+    import json
+
+    cache_dir = Path(__file__).resolve().parent.parent / ".cache"
+    path = cache_dir / f"{name}-{source_digest(model)}.json"
+    if path.exists() and not os.environ.get("VSTAT_NO_CACHE"):
+        try:
+            return json.loads(path.read_text())
+        except ValueError:
+            pass
+    val = compute()
+    try:
+        cache_dir.mkdir(exist_ok=True)
+        for old in sorted(cache_dir.glob(f"{name}-*.json"), key=lambda q: q.stat().st_mtime)[:-3]:
+            old.unlink()
+        tmp = path.with_suffix(f".tmp{os.getpid()}")
+        tmp.write_text(json.dumps(val))
+        tmp.replace(path)
+    except OSError:
+        pass
+    return val
+
+
 def callback_table(model: SrcModel, callback: str) -> Dict[Tuple[str, str], Tuple]:
-    """(left tag, right tag) -> ('ret', state, has_hint, fce) | ('raise', class)."""
+    """(left tag, right tag) -> ('ret', state, class, hint, fce) | ('raise', class). Cached by source digest."""
     model.cls(RCT)
+    raw = disk_cached(model, f"cbtable-{callback}", lambda: {f"{k[0]}|{k[1]}": list(v) for k, v in _callback_table(model, callback).items()})
+    return {tuple(k.split("|")): tuple(v) for k, v in raw.items()}
+
+
+def _callback_table(model: SrcModel, callback: str) -> Dict[Tuple[str, str], Tuple]:
     nodes = abstract_nodes()
     table: Dict[Tuple[str, str], Tuple] = {}
     for (lt, ls), (rt, rs) in itertools.product(nodes, repeat=2):
